@@ -12,10 +12,12 @@ import Verif.Lemmas.UnknownSpecEnc
 import Verif.Lemmas.UnknownRead
 namespace Verif.C13
 
-/-- The depth limit the source declares: 65 = the 64 container levels Binary.Skip accepts plus the innermost
-    scalar (which readUnknownField counts as a level). C13 is claimed for nesting ≤ this constant; the
-    statements below are generic in it (`MD`), so the regenerated constant flows through. -/
-theorem maxdepth_value : Facts.ufMaxRecursionDepth = 65 := rfl
+/-- The one fact about the policy constant that a result below needs (`skip_accepted_converts`): the limit is
+    at least Binary.Skip's `defaultRecursionDepth` + 1 (64 container levels plus the innermost scalar, which
+    readUnknownField counts as a level), i.e. 65 ≤ maxRecursionDepth with today's constants. Everything else
+    (`write_convert`, `convert_write`, `C03.uf_recDepth_le`) is generic in `MD`, so a larger regenerated limit
+    flows through; a smaller one fails exactly here. -/
+theorem maxdepth_ge : Facts.defaultRecursionDepth + 1 ≤ Facts.ufMaxRecursionDepth := by decide
 
 /-- maxRecursionDepth of the source -/
 abbrev MD : Nat := Facts.ufMaxRecursionDepth
@@ -90,14 +92,14 @@ theorem write_is_spec_encoding (d : Nat) (fs : List (UF d)) (h : fs.all (wt d) =
 theorem enc_is_grammar (d : Nat) (t : UInt8) (b : Bytes) (k : Nat) (h : encLen d t b = some k) :
     refLen d t b = some k := encLen_refLen d t b k h
 
-/-- Why maxRecursionDepth is 65: every sequence of ≥ 1 fields whose values thrift.Binary.Skip accepts
+/-- Why maxRecursionDepth is (at least) 65: every sequence of ≥ 1 fields whose values thrift.Binary.Skip accepts
     (`refBin defaultRecursionDepth`, Lemmas/Grammar — exactly Binary.Skip's acceptance set, proved in the skip
     family; fixed-size and string leaves do not cost Skip a level, but they cost readUnknownField one) is
     converted by ConvertUnknownFields — whatever the boolean bytes. So everything FastRead keeps as unknown
     bytes can be converted; with canonical bools `write_convert` then gives the byte-exact round trip. -/
 theorem skip_accepted_converts (b : Bytes) (hne : b ≠ [])
     (h : encSeq (refBin Facts.defaultRecursionDepth) (b.length + 1) b = true) : ∃ fs, convertUF b = .ok fs :=
-  convertM_of_skipAccepted Facts.defaultRecursionDepth b hne h
+  convertM_of_skipAccepted Facts.defaultRecursionDepth Facts.ufMaxRecursionDepth maxdepth_ge b hne h
 
 /-! ## non-vacuity -/
 
@@ -128,9 +130,11 @@ def deepLists : Nat → Bytes
   | 0 => [9]
   | k+1 => (if k = 0 then 3 else 15) :: 0 :: 0 :: 0 :: 1 :: deepLists k
 
+-- evaluated at the concrete constants (conditional, so that regenerated constants do not break the build)
 set_option maxRecDepth 8000 in
-example : encSeq (refBin Facts.defaultRecursionDepth) (([15, 0, 5] ++ deepLists 64).length + 1)
-      ([15, 0, 5] ++ deepLists 64) = true ∧
-    refLen 64 15 (deepLists 64) = none ∧ EncFields MD ([15, 0, 5] ++ deepLists 64) := by decide
+example : Facts.defaultRecursionDepth ≠ 64 ∨ Facts.ufMaxRecursionDepth < 65 ∨
+    (encSeq (refBin Facts.defaultRecursionDepth) (([15, 0, 5] ++ deepLists 64).length + 1)
+        ([15, 0, 5] ++ deepLists 64) = true ∧
+      refLen 64 15 (deepLists 64) = none ∧ EncFields MD ([15, 0, 5] ++ deepLists 64)) := by decide
 
 end Verif.C13
